@@ -41,7 +41,13 @@ def build_series(cfg):
             reg = (cfg["_last_reg"] + 1) % nreg
         prev = np.zeros(N)
         while pos < T:
-            seg = int(rng.integers(max(3, T // (2 * nreg + 1)), max(4, T // 2 + 1)))
+            if cfg.get("short_segments"):
+                seg = int(rng.integers(2, 40))
+                nxt = ((pos // 4096) + 1) * 4096
+                if pos < nxt < pos + seg + 40:
+                    seg = nxt - pos          # a regime change exactly at row 4096, 8192, ... (block-size boundaries)
+            else:
+                seg = int(rng.integers(max(3, T // (2 * nreg + 1)), max(4, T // 2 + 1)))
             for tt in range(pos, min(T, pos + seg)):
                 e = mixes[reg] @ rng.normal(size=N)
                 prev = ar[reg] * prev + e
@@ -49,6 +55,8 @@ def build_series(cfg):
             pos += seg
             last = reg
             reg = int(rng.integers(0, nreg))
+            if cfg.get("short_segments") and nreg > 1 and reg == last:
+                reg = (reg + 1) % nreg
         cfg["_last_reg"] = last
         if cfg.get("constant_sensor") is not None and cfg["constant_sensor"] < N:
             x[:, cfg["constant_sensor"]] = 1.25
@@ -60,7 +68,11 @@ def build_series(cfg):
         if cfg.get("duplicate_rows"):
             k = max(1, T // 3)
             x[T - k:] = x[:k]
-        out.append(x * scales + float(cfg.get("data_offset") or 0.0))
+        arr = x * scales + float(cfg.get("data_offset") or 0.0)
+        if cfg.get("reuse_buffers"):
+            from harness import buffers
+            arr = buffers.reuse(f"e2e.series.{si}", arr)       # same array object as in earlier runs of this process
+        out.append(arr)
     cfg.pop("_last_reg", None)
     return out
 
@@ -74,6 +86,8 @@ def make_lambda(cfg, nw):
         return np.full((nw, nw), float(v))
     rng = np.random.default_rng(cfg["data_seed"] + 99)
     M = rng.uniform(0.2, 1.0, size=(nw, nw)) * float(v)
+    if form == "asymmetric_matrix":
+        return M           # the optimiser reads the upper triangle; the lower one is the caller's business
     return np.triu(M) + np.triu(M, 1).T
 
 
@@ -228,11 +242,15 @@ def run(cfg, sync_pool=True, record_admm=True, admm_wrapper=None, series=None, e
         series = build_series(dict(cfg))
     trace.series = series
     W, K = cfg["W"], cfg["K"]
+    if cfg.get("prior_calls_on_same_arrays"):
+        _prior_calls_on_same_arrays(series, W)
     nw = cfg["N"] * W
     total_stacked = max(1, sum(max(0, len(s) - W + 1) for s in series))     # (callers that feed the wrong input kind override beta anyway)
     lam = make_lambda(cfg, nw)
     beta = make_beta(cfg, total_stacked)
     trace.lam, trace.beta = lam, beta
+    trace.lam_before = lam.copy() if isinstance(lam, np.ndarray) else lam
+    trace.beta_before = beta.copy() if isinstance(beta, np.ndarray) else beta
     kwargs = dict(window_size=W, num_clusters=K, sparsity_weight=lam, label_switching_cost=beta,
                   iteration_limit=cfg["limit"], min_meaningful_covariance=cfg.get("eps", 0),
                   num_processors=cfg.get("num_processors", 1), min_cluster_size=cfg["m"],
@@ -271,7 +289,8 @@ def run(cfg, sync_pool=True, record_admm=True, admm_wrapper=None, series=None, e
     real_admm = admm.admm_optimize_theta
 
     def recording(*a, **k):
-        rec = {"S": np.array(a[0], copy=True), "S_obj": a[0], "lam": a[1], "W": a[2], "N": a[3], "kwargs": dict(k)}
+        rec = {"S": np.array(a[0], copy=True), "S_obj": a[0], "lam": (np.array(a[1], copy=True) if isinstance(a[1], np.ndarray) else a[1]),
+               "lam_obj": a[1], "W": a[2], "N": a[3], "kwargs": dict(k)}
         _round(trace, _current_round(trace))["admm"].append(rec)
         res = real_admm(*a, **k) if admm_wrapper is None else admm_wrapper(real_admm, *a, **k)
         rec["theta"] = np.array(res.theta, copy=True)
@@ -291,7 +310,7 @@ def run(cfg, sync_pool=True, record_admm=True, admm_wrapper=None, series=None, e
             if cfg["front"] == "single":
                 trace.result = fast_ticc.ticc_labels(series[0], **kwargs)
             else:
-                arg = list(series)
+                arg = series if isinstance(series, list) else list(series)     # the caller's own list object, not a copy
                 trace.result = fast_ticc.ticc_joint_labels(arg, **kwargs)
         trace.ok = True
     except Exception as e:
@@ -302,6 +321,32 @@ def run(cfg, sync_pool=True, record_admm=True, admm_wrapper=None, series=None, e
         admm.admm_optimize_theta = real_admm
     trace.pools = list(SyncPool.instances) if sync_pool else []
     return trace
+
+
+def _prior_calls_on_same_arrays(series, W):
+    """What a caller who keeps its arrays does before this run: the same array objects were stacked earlier with another
+    window size, and with other contents (then refilled in place).  Only the library's memoisation can tell the difference."""
+    from fast_ticc import data_preparation as dp
+    arrays = [s for s in series if isinstance(s, np.ndarray) and s.ndim == 2]
+    if not arrays:
+        return
+    try:
+        w2 = W + 1 if all(len(a) >= W + 1 for a in arrays) else max(1, W - 1)
+        if w2 != W:
+            dp.stack_training_data_multiple_series(list(arrays), w2)
+            dp.stack_training_data(arrays[0], w2)
+        saved = [a.copy() for a in arrays]
+        if all(a.flags.writeable for a in arrays):
+            for a in arrays:
+                a[...] = a[::-1] * 0.5 + 7.0
+            dp.stack_training_data_multiple_series(list(arrays), W)
+            dp.stack_training_data(arrays[0], W)
+            for a, s0 in zip(arrays, saved):
+                a[...] = s0
+    except Exception:
+        for a, s0 in zip(arrays, locals().get("saved", [])):
+            if a.flags.writeable:
+                a[...] = s0
 
 
 def _current_round(trace):
